@@ -22,7 +22,7 @@ WRAPPERS = {
     'AffTree::add_child_node': ('Tree::add_child_node(self.tree, node, label, AffContent::new(aff))', [], 'attaches a fresh node (state Indeterminate) holding aff under (node, label)'),
     'AffTree::from_tree': ('AffTree::AffTree{tree, dim, RefCell::new(Vec::new())}', [], 'wraps the tree with the given input dimension and an empty scratch cache'),
 }
-FLOORS = {'C04.R6': 15, 'C04.R5': 11, 'C04.R1': 10, 'C04.R2': 19, 'C04.R3': 5, 'C04.R4': 7}
+FLOORS = {'C04.R6': 15, 'C04.R5': 12, 'C04.R1': 10, 'C04.R2': 19, 'C04.R3': 5, 'C04.R4': 7}
 EXPLANATION = 'Input-dimension / common-output-dimension preservation, absence of the childless-decision state, absence of the merge assertion panic, for all histories.'
 DOES_NOT_DECIDE = 'panics reachable through unwrap/indexing inside ndarray/minilp; numeric content of node functions'
 ALLOWED_WRITERS = {
